@@ -74,7 +74,9 @@ pub fn relayout(rows: &[HRow], seeds: &[u16], tags: &mut Vec<String>) -> Vec<(St
 fn strategy(tier: Tier) -> BoxedStrategy<LayoutCase> {
     let mut p = GenParams::ledger();
     p.max_rows = tier.pick(14, 30);
-    (ledger_strategy(p, 1), proptest::collection::vec(any::<u16>(), 64), any::<bool>()).prop_map(|(base, seeds, costs)| {
+    // a fifth of the inputs are long (21-40 rows): sorting more than 20 rows takes other code paths in the standard library
+    let mut long = p.clone(); long.max_rows = 40;
+    (prop_oneof![4 => ledger_strategy(p, 1), 1 => ledger_strategy(long, 21)], proptest::collection::vec(any::<u16>(), 64), any::<bool>()).prop_map(|(base, seeds, costs)| {
         let mut tags = vec![];
         let files = relayout(&base.rows, &seeds, &mut tags);
         LayoutCase { base, files, costs, tags }
@@ -96,6 +98,7 @@ fn check(c: &LayoutCase, obs: &mut Obs) -> Verdict {
     for r in &c.base.rows { let e = seen.entry((r.sec.clone(), r.sd)).or_insert(0); *e += 1; if *e > 1 { same_day = true; } }
     if nfiles >= 2 && permuted_cols && same_day { obs.nt("several-files+permuted-columns+same-day-rows"); }
     for t in &c.tags { obs.class(t.clone()); }
+    if c.base.rows.len() > 20 { obs.class("more-than-20-rows"); }
     if c.costs { obs.class("with-total-costs"); }
     if sa.secs.values().any(|t| !t.errors.is_empty()) { obs.class("some-security-rejected"); }
     Verdict::Pass
